@@ -79,6 +79,13 @@ TEMPLATES = [
     ("mixed_chain", "ansi", "CREATE TABLE q.mid AS SELECT c1 AS k1 FROM {a}; INSERT INTO {b} SELECT k1 FROM q.mid"),
     ("mixed_cte", "ansi", "WITH x AS (SELECT c1 FROM q.fixed) INSERT INTO {a} SELECT c1 FROM x"),
     ("mixed_union", "ansi", "INSERT INTO {a} SELECT c1 FROM q.fixed UNION ALL SELECT c1 FROM {b}"),
+    # expressions that are sub-queries (analysed by a nested runner), naming one table both bare and qualified with a
+    # schema that is also used as a default ("used", "q")
+    ("scalar_subquery_both_ways", "ansi", "INSERT INTO {a} SELECT (SELECT max(amount) FROM {b} JOIN used.tb_b ON 1 = 1) AS m, {b}.k FROM {b} JOIN {c} ON {b}.k = {c}.k"),
+    ("scalar_subquery_both_ways_legacy", "non-validating", "INSERT INTO {a} SELECT (SELECT max(amount) FROM {b} JOIN used.tb_b ON 1 = 1) AS m, t.k FROM {b} t JOIN {c} u ON t.k = u.k"),
+    ("scalar_subquery_q", "ansi", "INSERT INTO {a} SELECT (SELECT min(v) FROM q.tb_c, {c}) AS lo, (SELECT count(*) FROM {c}) AS n, {c}.k FROM {c} JOIN {b} ON {c}.k = {b}.k"),
+    ("case_subquery", "ansi", "INSERT INTO {a} SELECT CASE WHEN (SELECT avg(x) FROM {b}) > 0 THEN (SELECT avg(y) FROM used.tb_b) ELSE 0 END AS c1 FROM {b} JOIN {c} ON 1 = 1"),
+    ("where_subquery_both_ways", "ansi", "INSERT INTO {a} SELECT k FROM {b} WHERE k IN (SELECT k FROM used.tb_b) AND k NOT IN (SELECT k FROM {c})"),
 ]
 
 PLACEHOLDERS = ["a", "b", "c", "d", "e"]
